@@ -200,6 +200,21 @@ def g_all(tier, k, n):
                 except Exception as ex:
                     bad = bad or (y, m, d, "raised", repr(ex))
         want_last = JDN(y + 1, 1, 1) - j1
+        # doy2date inverts get_doy on the days that exist, and refuses the others with the documented ValueError
+        for dy in (0, 0.5, -3, want_last + 1, want_last + 1.25, 400):
+            try:
+                out = Epoch.doy2date(y, dy)
+                bad = bad or (y, dy, "doy2date returned a date for a day of the year that does not exist", out)
+            except ValueError:
+                pass
+            except Exception as ex:
+                bad = bad or (y, dy, "doy2date raised", repr(ex))
+        try:
+            last = Epoch.doy2date(y, want_last + 0.75)
+            if (last[0], last[1]) != (y, 12) or abs(last[2] - 31.75) > 1e-9:
+                bad = bad or (y, want_last + 0.75, "last day of the year", last)
+        except Exception as ex:
+            bad = bad or (y, want_last, "doy2date raised on the last day of the year", repr(ex))
         yield ((y, cnt), bad is None, bad)
 
 
